@@ -1950,9 +1950,10 @@ class FileBuilder:
         for dir_ in self._old_cache.created_dirs():
             dirs_to_remove.discard(os.path.normcase(dir_))
 
-        for filename in self._new_cache.created_files():
-            if not self._old_cache.created_file(filename):
-                FileBuilder._try_to_remove_file(filename)
+        # Remove the files we built. If a file existed beforehand, then we
+        # backed it up, so restore_all() will put the old contents back.
+        for filename in self._new_cache.built_files():
+            FileBuilder._try_to_remove_file(filename)
         FileBuilder._remove_empty_dirs(list(dirs_to_remove))
 
         FileBuilder._create_dirs(self._old_cache.created_dirs())
